@@ -154,6 +154,24 @@ Theorem C12_ds_saved_offset_within_log : forall fuel tys h id,
 Proof. exact ResubDsProofs.saved_within_log_ds. Qed.
 Print Assumptions C12_ds_saved_offset_within_log.
 
+(* no loss there as long as no SubscribeWithReplay is cut short: in every history in which publishes may die or have
+   their append fail at any point, but every SubscribeWithReplay runs undisturbed (clean plan, no publishes from inside
+   the replay) and the log fits one page of the paged replay, everything of a subscription's type at or below its saved
+   position has been delivered to it and a live subscription is up to date (fuel >= 2: two page reads per replay) *)
+Theorem C12_ds_nothing_lost_when_replays_complete : forall tys f h,
+  ResubDsProofs.subs_clean h -> length (log (ResubDs.run_ds (S (S f)) tys h init)) <= ResubDs.batch ->
+  covered tys (ResubDs.run_ds (S (S f)) tys h init) /\ live_cov tys (ResubDs.run_ds (S (S f)) tys h init).
+Proof. exact ResubDsProofs.nothing_lost_ds. Qed.
+Print Assumptions C12_ds_nothing_lost_when_replays_complete.
+
+(* ... and then, after a restart and an undisturbed SubscribeWithReplay, every persisted event of the type has arrived *)
+Theorem C12_ds_caught_up_after_resubscribe : forall tys f h id,
+  ResubDsProofs.subs_clean h ->
+  let s := ResubDs.run_ds (S (S f)) tys (h ++ [(ORestart, clean); (OSub id [], clean)]) init in
+  length (log s) <= ResubDs.batch -> forall p, typed tys (log s) id p -> delivered s id p.
+Proof. exact ResubDsProofs.caught_up_after_resubscribe_ds. Qed.
+Print Assumptions C12_ds_caught_up_after_resubscribe.
+
 (* REFUTED there (known finding F8d, reproduced on the real store by suite resubds): "if the process dies at any point
    no event is lost".  Three events; the process dies in SubscribeWithReplay right after the first one has been handled
    and its synthetic offset - which resumes from the end of the page - saved; after the restart a clean
